@@ -274,10 +274,20 @@ BODIES = {
     "two": (2, 2, lambda F: (lambda a, b: [a * b, a + b])),
     "nest": (1, 1, lambda F: (lambda a: _first(F["f"](a, a) if F["f"].nargs == 2 else (F["f"]() if F["f"].nargs == 0 else (F["f"](5) if F["f"].nargs == -1 else F["f"](a)))) * a)),
     "lin": (2, 1, lambda F: (lambda a, b: a * 2 - b)),
+    # value-preserving bodies for long histories: one product, and 4200 products (more than 4096 equations in one function)
+    "keep": (1, 1, lambda F: (lambda a: a * (a * 0 + 1))),
+    "bigbody": (1, 1, lambda F: (lambda a: _repeat_keep(a, 4200))),
     # no wire among the arguments: nothing / a plain number goes in, a computed wire comes out
     "noarg": (0, 1, lambda F: (lambda: _Q["rt"].PrivVal(3) * _Q["rt"].PrivVal(4))),
     "plainarg": (-1, 1, lambda F: (lambda k: _Q["rt"].PrivVal(k) * _Q["rt"].PrivVal(k + 1))),
 }
+
+
+def _repeat_keep(a, n):
+    t = a
+    for _ in range(n):
+        t = t * (a * 0 + 1)
+    return t
 
 
 def _first(r):
@@ -304,6 +314,11 @@ def histories(level):
                         if form != "plain" and inp != inputs[0] and level == 0:
                             continue
                         out.append({"f": bf, "g": bg, "seq": "".join(s), "inp": inp, "form": form})
+    # sizes: 40 (thorough 300) calls in one run; a function with more than 4096 equations, called once and twice
+    out.append({"f": "keep", "g": "sq", "seq": "f" * (40 if level == 0 else 300), "inp": (3, -4), "form": "plain"})
+    out.append({"f": "keep", "g": "keep", "seq": "fg" * 20, "inp": (3, -4), "form": "composite"})
+    out.append({"f": "bigbody", "g": "sq", "seq": "f", "inp": (3, -4), "form": "plain"})
+    out.append({"f": "bigbody", "g": "keep", "seq": "fgf", "inp": (3, -4), "form": "plain"})
     return out
 
 
